@@ -5,6 +5,9 @@ import Pycoin.Proofs.CurveFacts.secp256k1
 import Pycoin.Proofs.CurveFacts.secp256r1
 import Pycoin.Proofs.CurveFacts.bls12_381
 import Pycoin.Proofs.CurveFacts.Order
+import Pycoin.Proofs.NativeGen
+import Pycoin.Proofs.NativeFacts
+import Pycoin.Proofs.NativeSecp
 /-!
 C02 — elliptic-curve arithmetic is the group law.  Property theorems (helper lemmas: `Proofs/Field.lean`,
 `Proofs/Group.lean`).
@@ -313,3 +316,174 @@ theorem C02_multiply_all_points_bls12_381_refuted :
   exact order_not_all_points_bls12_381 h2.symm
 
 end Pycoin.Gen.Curves
+
+/-! ## (g) the OpenSSL-accelerated classes (`native/openssl.py`, `native/bignum.py`)
+
+The glue is modelled statement by statement (`Model/NativeCurve.lean`: `Ossl.multiply`, `Ossl.rawMul`, `Ossl.inverseMod`,
+`BignumType`), with libcrypto a PARAMETER `L : LibCrypto`.  What libcrypto is assumed to do is the hypothesis
+`LibCryptoOk L c` (`Proofs/NativeContract.lean`: `EC_POINT_mul` computes `e • P` for a finite reduced curve point and
+`0 < e < n`; `EC_POINT_get_affine_coordinates` fails on infinity and leaves the outputs alone; `BN_mod_inverse` is the
+inverse or NULL; `BN_mpi2bn` decodes MPI) — trusted base, stated as a hypothesis, not an axiom; satisfiable
+(`C02_openssl_contract_satisfiable_*`); its observable clauses are probed on the real library on every run.
+`CurveFits c`: `p` and `n` are below the size `BN_mpi2bn`'s `int len` can carry (2³⁴ bits). -/
+namespace Pycoin.Native
+open Pycoin Pycoin.Curve
+
+section generic
+variable {c : CurveParams} [Good c] {L : LibCrypto}
+
+/-- the generic code over a method table, instantiated with the pure methods, IS the pure model (so the theorems of
+sections (a)–(f) speak about the same description of the source the native theorems use) -/
+theorem C02_methods_pure (P Q : Pt) (bf e : Int) :
+    Gen.add (pureMethods c) c P Q = Curve.add c P Q ∧ Gen.mulG (pureMethods c) c bf e = Curve.mulG c bf e ∧
+    Gen.sharedPublicKey (pureMethods c) c e Q = Curve.sharedPublicKey c e Q ∧
+    Gen.generatorInit (pureMethods c) c bf = Curve.generatorInit c bf :=
+  ⟨Gen.add_pure c P Q, Gen.mulG_pure c bf e, Gen.sharedPublicKey_pure c e Q, Gen.generatorInit_pure c bf⟩
+
+/-- **`Optimizations.multiply(P, e)` computes `e • P`**: for every curve point `P` killed by the prime order — coordinates
+unreduced or negative, a zero coordinate, infinity — and EVERY integer `e` (zero, negative, multiples of `n`, `≥ 2²⁵⁶`)
+it never raises and returns a reduced curve point denoting `e • P` in Mathlib's group -/
+theorem C02_openssl_multiply_correct (hL : LibCryptoOk L c) (fits : CurveFits c) (hn : c.n.Prime) (P : Pt)
+    (hP : OnCurve c P) (hT : (c.n : Int) • toPoint c P = 0) (e : Int) :
+    ∃ R, Ossl.multiply L c P e = .ok R ∧ OnCurve c R ∧ Reduced c R ∧ toPoint c R = e • toPoint c P := by
+  obtain ⟨den, spec⟩ := hL
+  exact ossl_multiply_spec spec fits hn P hP hT e
+
+/-- **identical coordinates for identical inputs**: OpenSSL `multiply` = pure `multiply` with the coordinates reduced
+mod `p` (the pure ladder hands an unreduced operand back as given when `e ≡ 1`) … -/
+theorem C02_openssl_multiply (hL : LibCryptoOk L c) (fits : CurveFits c) (hn : c.n.Prime) (P : Pt)
+    (hP : OnCurve c P) (hT : (c.n : Int) • toPoint c P = 0) (e : Int) :
+    Ossl.multiply L c P e = (Curve.multiply c P e).map (reducePt c) := by
+  obtain ⟨den, spec⟩ := hL
+  exact ossl_multiply_eq_map spec fits hn P hP hT e
+
+/-- … and the very same pair when the operand is reduced -/
+theorem C02_openssl_multiply_reduced (hL : LibCryptoOk L c) (fits : CurveFits c) (ok : ECDSAOk c) (P : Pt)
+    (hP : OnCurve c P) (rP : Reduced c P) (hT : (c.n : Int) • toPoint c P = 0) (e : Int) :
+    Ossl.multiply L c P e = Curve.multiply c P e := by
+  obtain ⟨den, spec⟩ := hL
+  exact ossl_multiply_eq spec fits ok P hP rP hT e
+
+/-- `Optimizations.raw_mul(e) = Generator.raw_mul(e)` for every integer `e` -/
+theorem C02_openssl_rawMul (hL : LibCryptoOk L c) (fits : CurveFits c) (ok : ECDSAOk c) (e : Int) :
+    Ossl.rawMul L c e = Curve.rawMul c e := by
+  obtain ⟨den, spec⟩ := hL
+  exact ossl_rawMul_eq spec fits ok e
+
+/-- the blinded `Generator.__mul__` of the OpenSSL class = that of the pure class, for every blinding factor -/
+theorem C02_openssl_blindedMul (hL : LibCryptoOk L c) (fits : CurveFits c) (ok : ECDSAOk c) (bf e : Int) :
+    Gen.mulG (Ossl.methods L c) c bf e = Curve.mulG c bf e := by
+  obtain ⟨den, spec⟩ := hL
+  exact ossl_mulG_eq spec fits ok bf e
+
+/-- `Optimizations.inverse_mod(a, m) = Curve.inverse_mod(a, m)` for every modulus `m > 1` and EVERY operand: the inverse in
+`[1, m)` when `gcd(a, m) = 1`, `AssertionError` when not (`Fits`: the operands have fewer than 2³⁴ bits) -/
+theorem C02_openssl_inverseMod (hL : LibCryptoOk L c) (a m : Int) (hm : 1 < m) (fa : Fits a) (fm : Fits m) :
+    Ossl.inverseMod L a m = Curve.inverseMod a m := by
+  obtain ⟨den, spec⟩ := hL
+  exact ossl_inverseMod_eq spec a m hm fa fm
+
+/-- what the glue did on operands without an inverse BEFORE the repair (`BN_mod_inverse`'s NULL was not looked at): the
+operand came back unchanged where the pure class raises `AssertionError` (fixed defect `openssl-inverse-unchecked`) -/
+theorem C02_openssl_inverseMod_before_fix (hL : LibCryptoOk L c) (a m : Int) (hm : 1 < m) (fa : Fits a) (fm : Fits m)
+    (hg : Int.gcd a m ≠ 1) :
+    Ossl.inverseModUnchecked L a m = .ok a ∧ Curve.inverseMod a m = .error .assertion := by
+  obtain ⟨den, spec⟩ := hL
+  exact ⟨ossl_inverseModUnchecked_not_coprime spec a m hm fa fm hg, inverseMod_not_coprime a m hm hg⟩
+
+/-- `Point + Point` in the OpenSSL class (`Curve.add` calling OpenSSL's `inverse_mod`) = pure `Curve.add`, for all operands
+whose coordinates fit a bignum — on or off the curve, every branch -/
+theorem C02_openssl_add (hL : LibCryptoOk L c) (fits : CurveFits c) (P Q : Pt) (fP : CoordFits P) (fQ : CoordFits Q) :
+    Gen.add (Ossl.methods L c) c P Q = Curve.add c P Q := by
+  obtain ⟨den, spec⟩ := hL
+  exact ossl_add_eq spec fits P Q fP fQ
+
+/-- `generate_shared_public_key` through the OpenSSL class: the pure result, coordinates reduced; `NoSuchPointError` off
+the curve in both -/
+theorem C02_openssl_shared (hL : LibCryptoOk L c) (fits : CurveFits c) (ok : ECDSAOk c) (d : Int) (Q : Pt)
+    (hQn : OnCurve c Q → (c.n : Int) • toPoint c Q = 0) :
+    Gen.sharedPublicKey (Ossl.methods L c) c d Q = (Curve.sharedPublicKey c d Q).map (reducePt c) := by
+  obtain ⟨den, spec⟩ := hL
+  exact ossl_shared_eq spec fits ok d Q hQn
+
+/-- the constructor of the OpenSSL class (table of doublings through OpenSSL's `inverse_mod`, `raw_mul(-bf)` through
+`EC_POINT_mul`) accepts and rejects what the pure constructor does -/
+theorem C02_openssl_generatorInit (hL : LibCryptoOk L c) (fits : CurveFits c) (ok : ECDSAOk c) (bf : Int) :
+    Gen.generatorInit (Ossl.methods L c) c bf = Curve.generatorInit c bf := by
+  obtain ⟨den, spec⟩ := hL
+  exact ossl_generatorInit_eq spec fits ok bf
+
+end generic
+
+open Pycoin.Gen.Curves
+
+/-- non-vacuity: an executable libcrypto (the pure model playing it) satisfies the contract on both curves that have an
+OpenSSL class -/
+theorem C02_openssl_contract_satisfiable_secp256k1 : LibCryptoOk (pureLib secp256k1) secp256k1 := pureLib_ok_secp256k1
+theorem C02_openssl_contract_satisfiable_secp256r1 : LibCryptoOk (pureLib secp256r1) secp256r1 := pureLib_ok_secp256r1
+
+/-- **the clause at full strength on the shipped curves**: for every libcrypto meeting the contract, every point of the
+curve and every integer, the OpenSSL class returns the coordinates the pure class returns (reduced mod `p`) -/
+theorem C02_openssl_multiply_secp256k1 {L : LibCrypto} (hL : LibCryptoOk L secp256k1) (P : Pt)
+    (hP : OnCurve secp256k1 P) (e : Int) :
+    Ossl.multiply L secp256k1 P e = (Curve.multiply secp256k1 P e).map (reducePt secp256k1) :=
+  C02_openssl_multiply hL curveFits_secp256k1 prime_n_secp256k1 P hP (order_all_secp256k1 _) e
+
+theorem C02_openssl_multiply_secp256r1 {L : LibCrypto} (hL : LibCryptoOk L secp256r1) (P : Pt)
+    (hP : OnCurve secp256r1 P) (e : Int) :
+    Ossl.multiply L secp256r1 P e = (Curve.multiply secp256r1 P e).map (reducePt secp256r1) :=
+  C02_openssl_multiply hL curveFits_secp256r1 prime_n_secp256r1 P hP (order_all_secp256r1 _) e
+
+theorem C02_openssl_generator_secp256k1 {L : LibCrypto} (hL : LibCryptoOk L secp256k1) (bf e : Int) :
+    Ossl.rawMul L secp256k1 e = Curve.rawMul secp256k1 e ∧
+    Gen.mulG (Ossl.methods L secp256k1) secp256k1 bf e = Curve.mulG secp256k1 bf e :=
+  ⟨C02_openssl_rawMul hL curveFits_secp256k1 ecdsaOk_secp256k1 e,
+    C02_openssl_blindedMul hL curveFits_secp256k1 ecdsaOk_secp256k1 bf e⟩
+
+theorem C02_openssl_generator_secp256r1 {L : LibCrypto} (hL : LibCryptoOk L secp256r1) (bf e : Int) :
+    Ossl.rawMul L secp256r1 e = Curve.rawMul secp256r1 e ∧
+    Gen.mulG (Ossl.methods L secp256r1) secp256r1 bf e = Curve.mulG secp256r1 bf e :=
+  ⟨C02_openssl_rawMul hL curveFits_secp256r1 ecdsaOk_secp256r1 e,
+    C02_openssl_blindedMul hL curveFits_secp256r1 ecdsaOk_secp256r1 bf e⟩
+
+/-! ### the libsecp256k1 class (`native/secp256k1.py`): `__mul__` and `multiply`
+
+libsecp256k1 is ABSENT from the sandbox: glue model and contract `LibSecpOk` (`Proofs/NativeSecp.lean`) are tied to the
+source by reading only; the theorems say what follows IF the library does what its documentation says. -/
+
+/-- `Optimizations.__mul__(e)` of the libsecp256k1 class (`secp256k1_ec_pubkey_create`, no blinding) = the blinded
+`Generator.__mul__(e)` of the pure class, every integer `e`, every blinding factor -/
+theorem C02_libsecp_mul {c : CurveParams} [Good c] {S : LibSecp256k1} (hS : LibSecpOk S c) (ok : ECDSAOk c)
+    (hp256 : c.p ≤ 2 ^ 256) (bf e : Int) : Secp.mul S c e = Curve.mulG c bf e := by
+  obtain ⟨denP, denS, spec⟩ := hS
+  exact secp_mul_eq spec ok hp256 bf e
+
+/-- `Optimizations.multiply(P, e)` of the libsecp256k1 class (`pubkey_parse`, `pubkey_tweak_mul`) = the pure `multiply`
+for every REDUCED curve point of the `n`-torsion (infinity included) and every integer `e`.  For unreduced coordinates
+the glue does not reduce: negative or `≥ 2²⁵⁶` raises `OverflowError`, `p ≤ x < 2²⁵⁶` makes `pubkey_parse` fail and the
+method returns the Python value `False` (model: `MulRes.pyFalse`) — the backends differ there. -/
+theorem C02_libsecp_multiply {c : CurveParams} [Good c] {S : LibSecp256k1} (hS : LibSecpOk S c) (ok : ECDSAOk c)
+    (hp256 : c.p ≤ 2 ^ 256) (P : Pt) (hP : OnCurve c P) (rP : Reduced c P) (hT : (c.n : Int) • toPoint c P = 0) (e : Int) :
+    Secp.multiply S c P e = (Curve.multiply c P e).map MulRes.pt := by
+  obtain ⟨denP, denS, spec⟩ := hS
+  exact secp_multiply_eq spec ok hp256 P hP rP hT e
+
+theorem C02_libsecp_multiply_secp256k1 {S : LibSecp256k1} (hS : LibSecpOk S secp256k1) (P : Pt)
+    (hP : OnCurve secp256k1 P) (rP : Reduced secp256k1 P) (e : Int) :
+    Secp.multiply S secp256k1 P e = (Curve.multiply secp256k1 P e).map MulRes.pt :=
+  C02_libsecp_multiply hS ecdsaOk_secp256k1 (by decide +kernel) P hP rP (order_all_secp256k1 _) e
+
+/-! evaluated examples (tests): the glue model over the pure-model libcrypto on the toy curve — zero, negative and
+over-order scalars, unreduced coordinates, infinity, an operand without inverse -/
+#guard Ossl.multiply (pureLib toy7) toy7 (some (8, -5)) 13 matches .ok none
+#guard Ossl.multiply (pureLib toy7) toy7 (some (8, -5)) 0 matches .ok none
+#guard Ossl.multiply (pureLib toy7) toy7 (some (8, -5)) (-1) matches .ok (some (1, 5))
+#guard Ossl.multiply (pureLib toy7) toy7 (some (8, -5)) 14 matches .ok (some (1, 2))
+#guard Ossl.multiply (pureLib toy7) toy7 none 5 matches .ok none
+#guard Ossl.multiply (pureLib toy7) toy7 (some (1, 3)) 2 matches .error .noSuchPoint
+#guard Ossl.rawMul (pureLib toy7) toy7 (2 ^ 256 + 1) == Curve.rawMul toy7 (2 ^ 256 + 1)
+#guard Ossl.inverseMod (pureLib toy7) (-5) 17 matches .ok 10
+#guard Ossl.inverseMod (pureLib toy7) 34 17 matches .error .assertion
+#guard Ossl.inverseModUnchecked (pureLib toy7) 34 17 matches .ok 34
+
+end Pycoin.Native
